@@ -13,6 +13,8 @@
             Err(e) => parse_query(query_string.spec_bytes()) is None,
         }, //# C10 C12 C02 name=parsed_pairs_in_order
         res is Err ==> res->Err_0 is MalformedQueryString, //# C10 C13 name=error_kind
+        res is Ok ==> forall|k: String| #[trigger] res->Ok_0@.contains_key(k) ==> res->Ok_0@[k]@.len() > 0, //# C08 name=value_lists_nonempty
+        res is Ok ==> forall|k: String, i: int| res->Ok_0@.contains_key(k) && 0 <= i < res->Ok_0@[k]@.len() ==> well_escaped(str_bytes(#[trigger] res->Ok_0@[k]@[i]@)), //# C08 name=values_well_escaped
 //@ bodystart
     proof { broadcast use axiom_string_key_model, axiom_map_updated_same_key; lemma_qmap_empty(); }
 //@ before 1 `for component in components`
@@ -27,6 +29,8 @@
             0 <= vk_idx <= components@.len(),
             parse_pairs(comps, 0) == pre_pairs(acc, parse_pairs(comps, vk_idx as int)), //# C10 name=pairs_prefix
             qmap(result@) == map_of(acc), //# C10 C12 name=map_of_prefix
+            forall|k: String| #[trigger] result@.contains_key(k) ==> result@[k]@.len() > 0,
+            forall|k: String, i: int| result@.contains_key(k) && 0 <= i < result@[k]@.len() ==> well_escaped(str_bytes(#[trigger] result@[k]@[i]@)),
         decreases components@.len() - vk_idx
 //@ after 1 `if component.is_empty() {`
             proof { assert(comps[vk_idx - 1].len() == 0); }
@@ -46,6 +50,8 @@
         let ghost old_map = result@;
         proof {
             lemma_qmap_contains(old_map, key0);
+            lemma_normal_form_fixed_point(value.spec_bytes(), true);
+            assert(well_escaped(nv));
             lemma_pre_pairs_assoc(acc, seq![(nk, nv)], parse_pairs(comps, idx + 1));
             assert(acc + seq![(nk, nv)] =~= acc.push((nk, nv)));
             assert(acc.push((nk, nv)).drop_last() =~= acc);
